@@ -617,3 +617,173 @@ def rename_after_close(ctx: Ctx, v: LocalView, rule: str) -> int:
             else:
                 rep.ok(rule, f.qname, desc, f.loc(w))
     return n
+
+
+# ------------------------------------------------------------------------------------------
+# typestate exploration of the extracted effect sequences (crash points, interleavings)
+# ------------------------------------------------------------------------------------------
+def _sim_setup(ctx: Ctx, v: LocalView):
+    from .. import crashsim as cs
+
+    sim = cs.Sim(v.m, {})
+    blob_terms = [t for t in v.visible if _key_suffix(t) == ""]
+    return cs, sim, blob_terms
+
+
+def crash_sweep(ctx: Ctx, v: LocalView, rule: str) -> int:
+    """kill the writer after every prefix of its extracted step sequence; observe; re-run"""
+    rep = ctx.report
+    cs, sim, blob_terms = _sim_setup(ctx, v)
+    n = 0
+    if not blob_terms or not v.L:
+        rep.unknown(rule, v.cls.qname, "blob / path terms not identified for the crash sweep", v.cls.module.relpath)
+        return 0
+    blob_t, L = blob_terms[0], v.L[0]
+    base_dirs = {}
+    try:
+        # ---- store_blob ------------------------------------------------------------------------
+        steps = cs.steps_of(v.m, "store_blob")
+        envA = {"KEY": "k1", "pid": "1", "uid": "a", "version": "new", "PATH": "p"}
+        worst = None
+        for i in range(len(steps) + 1):
+            n += 1
+            fs = cs.FS(base_dirs)
+            pa = cs.Proc("killed writer", steps, envA)
+            trace = []
+            for _ in range(i):
+                trace.append(repr(pa.steps[pa.pc]))
+                sim.step(pa, fs)
+            msg = cs.blob_view(sim, fs, v.H, v.F, envA)
+            if msg is None:
+                for (pid, uid, who) in (("2", "b", "a recovery process"), ("1", "b", "a recovery process that got the pid of the killed one")):
+                    fs2 = fs.clone()
+                    pb = cs.Proc(who, steps, {**envA, "pid": pid, "uid": uid})
+                    try:
+                        cs.run_all(sim, pb, fs2)
+                    except cs.Failure as f_:
+                        msg = f"after the kill, {f_.what}"
+                        break
+                    m2 = cs.blob_view(sim, fs2, v.H, v.F, envA)
+                    if m2 is None and not all(fs2.exists(cs.inst(t, envA)) for t in v.H):
+                        m2 = "after a complete re-run of store_blob the key is still not reported present"
+                    if m2:
+                        msg = f"after the kill and a complete re-run by {who}: {m2}"
+                        break
+            if msg and worst is None:
+                worst = (i, trace, msg)
+        desc = f"store_blob killed after each of its {len(steps)} atomic steps: a later process never sees has_blob without a complete entry, and can store the key again"
+        if worst is None:
+            rep.ok(rule, _site(v, "store_blob"), desc, v.func("store_blob").loc())
+        else:
+            i, trace, msg = worst
+            rep.bad(rule, _site(v, "store_blob"), desc, v.func("store_blob").loc(), [f"kill after step {i}: " + (trace[-1] if trace else "<before the first step>"), msg] + trace[-6:],
+                    "crash-store_blob", what="a kill inside store_blob leaves a store that serves wrong data or cannot be repaired by re-running")
+        # ---- sync_paths --------------------------------------------------------------------------
+        steps = cs.steps_of(v.m, "sync_paths")
+        new_blob = cs.inst(blob_t, envA)
+        old_blob = cs.inst(blob_t, {**envA, "KEY": "k0"})
+        Lt = cs.inst(L, envA)
+        for scen, init in (("first commit of the path", {}), ("path committed before with another blob", {Lt: ("link", old_blob)})):
+            worst = None
+            for i in range(len(steps) + 1):
+                n += 1
+                fs = cs.FS({**base_dirs, new_blob: ("file", "new"), old_blob: ("file", "old"), **init})
+                pa = cs.Proc("killed writer", steps, envA)
+                trace = []
+                for _ in range(i):
+                    trace.append(repr(pa.steps[pa.pc]))
+                    sim.step(pa, fs)
+                msg = cs.path_view(fs, L, envA, [old_blob, new_blob], must_exist=bool(init))
+                if msg is None:
+                    for (pid, uid, who) in (("2", "b", "a recovery process"), ("1", "b", "a recovery process that got the pid of the killed one")):
+                        fs2 = fs.clone()
+                        pb = cs.Proc(who, steps, {**envA, "pid": pid, "uid": uid})
+                        try:
+                            cs.run_all(sim, pb, fs2)
+                        except cs.Failure as f_:
+                            msg = f"after the kill, {f_.what}"
+                            break
+                        m2 = cs.path_view(fs2, L, envA, [new_blob], must_exist=True)
+                        if m2:
+                            msg = f"after the kill and a complete re-run by {who}: {m2}"
+                            break
+                if msg and worst is None:
+                    worst = (i, trace, msg)
+            desc = f"sync_paths ({scen}) killed after each of its {len(steps)} atomic steps: the path keeps resolving to its old or new blob and a re-run commits it"
+            if worst is None:
+                rep.ok(rule, _site(v, "sync_paths"), desc, v.func("sync_paths").loc())
+            else:
+                i, trace, msg = worst
+                rep.bad(rule, _site(v, "sync_paths"), desc, v.func("sync_paths").loc(), [f"kill after step {i}: " + (trace[-1] if trace else "<before the first step>"), msg] + trace[-6:],
+                        f"crash-sync_paths:{scen[:5]}", what="a kill inside sync_paths loses a committed path or blocks later commits")
+    except cs.Unknown as u:
+        rep.unknown(rule, v.cls.qname, f"effect sequence not interpretable by the typestate model: {u}", v.cls.module.relpath)
+    return n
+
+
+def interleaving_sweep(ctx: Ctx, v: LocalView, rule: str) -> int:
+    """every interleaving of two processes over the extracted step sequences"""
+    rep = ctx.report
+    cs, sim, blob_terms = _sim_setup(ctx, v)
+    if not blob_terms or not v.L:
+        rep.unknown(rule, v.cls.qname, "blob / path terms not identified for the interleaving sweep", v.cls.module.relpath)
+        return 0
+    blob_t, L = blob_terms[0], v.L[0]
+    total = 0
+    try:
+        envA = {"KEY": "k1", "pid": "1", "uid": "a", "version": "new", "PATH": "p"}
+        envB = {"KEY": "k1", "pid": "2", "uid": "b", "version": "new", "PATH": "p"}
+        # two writers of one key on a cold store
+        steps = cs.steps_of(v.m, "store_blob")
+
+        def chk_blob(fs, final):
+            m_ = cs.blob_view(sim, fs, v.H, v.F, envA)
+            if m_ is None and final and not all(fs.exists(cs.inst(t, envA)) for t in v.H):
+                m_ = "both writers finished but the key is not reported present"
+            return m_
+
+        nst, trace, msg = cs.interleavings(sim, cs.Proc("process 1", steps, envA), cs.Proc("process 2", steps, envB), cs.FS({}), chk_blob)
+        total += nst
+        desc = f"two processes storing the same key: {nst} interleaved states, no failure, no torn read"
+        if msg is None:
+            rep.ok(rule, _site(v, "store_blob"), desc, v.func("store_blob").loc())
+        else:
+            rep.bad(rule, _site(v, "store_blob"), "two processes storing the same key never fail or expose a partial entry", v.func("store_blob").loc(), [msg] + (trace or [])[-8:],
+                    "il-store_blob", what="concurrent store_blob of one key fails or exposes a partial entry")
+        # two committers of one path
+        steps = cs.steps_of(v.m, "sync_paths")
+        new_blob = cs.inst(blob_t, envA)
+        other_blob = cs.inst(blob_t, {**envA, "KEY": "k2"})
+        old_blob = cs.inst(blob_t, {**envA, "KEY": "k0"})
+        Lt = cs.inst(L, envA)
+        for scen, init, envB2, finals in (
+            ("same key, first commit", {}, envB, [new_blob]),
+            ("same key, path committed before", {Lt: ("link", old_blob)}, envB, [new_blob]),
+            ("different keys, path committed before", {Lt: ("link", old_blob)}, {**envB, "KEY": "k2"}, [new_blob, other_blob]),
+        ):
+            def chk_path(fs, final, init=init, finals=finals):
+                m_ = cs.path_view(fs, L, envA, [old_blob, new_blob, other_blob], must_exist=bool(init))
+                if m_ is None and final:
+                    m_ = cs.path_view(fs, L, envA, finals, must_exist=True)
+                return m_
+
+            fs0 = cs.FS({new_blob: ("file", "new"), other_blob: ("file", "new"), old_blob: ("file", "old"), **init})
+            nst, trace, msg = cs.interleavings(sim, cs.Proc("process 1", steps, envA), cs.Proc("process 2", steps, envB2), fs0, chk_path)
+            total += nst
+            if msg is None:
+                rep.ok(rule, _site(v, "sync_paths"), f"two processes committing one path ({scen}): {nst} interleaved states, no failure, the path always resolves", v.func("sync_paths").loc())
+            else:
+                rep.bad(rule, _site(v, "sync_paths"), f"two processes committing one path ({scen}) never fail and the path always resolves", v.func("sync_paths").loc(), [msg] + (trace or [])[-8:],
+                        f"il-sync_paths:{scen[:12]}", what="concurrent sync_paths of one path fails or leaves the path unresolved")
+        # store creation race
+        steps = cs.steps_of(v.m, "__init__")
+        nst, trace, msg = cs.interleavings(sim, cs.Proc("process 1", steps, envA), cs.Proc("process 2", steps, envB), cs.FS({}), lambda fs, final: None)
+        total += nst
+        if msg is None:
+            rep.ok(rule, _site(v, "__init__"), f"two processes creating the store on the same fresh directories: {nst} interleaved states, no failure", v.func("store_blob").loc())
+        else:
+            rep.bad(rule, _site(v, "__init__"), "two processes creating the store on the same directories never fail", v.cls.module.relpath, [msg] + (trace or [])[-8:], "il-init",
+                    what="concurrent creation of the store fails")
+    except cs.Unknown as u:
+        rep.unknown(rule, v.cls.qname, f"effect sequence not interpretable by the typestate model: {u}", v.cls.module.relpath)
+    return total
